@@ -86,6 +86,11 @@ CHECKS = {
         text="Differential exploration against std's own Debug machinery, with fault enumeration on the sink for the re-implemented builder; the state space of the builder is enumerated exhaustively up to the stated depth.",
         note="Trusted: std's derive(Debug)/builders as the specification; the sticky failing sink. The known finding is recognised only when the output equals the defect model exactly.",
         design_ref="DESIGN.md §3 C06", engine="compile + engines/dbgtuple"),
+    "C01": dict(
+        technique="bounded exhaustive enumeration of programs: 50 derives x their documented shape/attribute templates (support table transcribed from impl/doc) x 8 (quick) / 14 (thorough) generics signatures (lifetimes, bounded/defaulted type parameters, const parameters with defaults, where-clauses incl. projections, const-before-type) x plain/raw identifiers x {none, #[deprecated] field, #[deprecated] variant, uninhabited field}; each program is expanded in-process (accepted, impl-header invariants) and type-checked by rustc with the real proc-macro under #![deny(warnings)], differentially against a control twin without the derive",
+        text="Small-scope exhaustive exploration of the supported program space; the verdict per program is rustc's (no diagnostics attributable to the derive) plus structural invariants of the generated impl headers.",
+        note="Trusted: the support table (docs transcription); the carrier type meeting every trait requirement; rustc. Field types are the carrier H<X, N> (and T for Error); other field-type forms are C04's subject.",
+        design_ref="DESIGN.md §3 C01", engine="inproc+compile"),
 }
 
 PENDING = ["C01", "C02", "C03", "C04", "C05", "C06", "C07", "C08", "C09", "C10", "C11", "C13", "C14", "C15", "C16",
